@@ -96,8 +96,16 @@ func runC15(c *Ctx) {
 			kind  string
 		}
 		var reqs []req
+		var msgIDs []int32
+		boundary := []int32{0, 1, -1, 2147483647, -2147483648}
 		for k := 0; k < n; k++ {
 			msgID++
+			if k == 0 && r.Chance(30) {
+				// the coordinator's id counter wraps: boundary message ids (each at most once per stream)
+				msgIDs = append(msgIDs, boundary[r.Intn(len(boundary))])
+			} else {
+				msgIDs = append(msgIDs, msgID)
+			}
 			kind := "C"
 			if r.Bool() {
 				kind = "R"
@@ -126,7 +134,7 @@ func runC15(c *Ctx) {
 				}
 				st.mu.Unlock()
 			}
-			tok := fmt.Sprintf("%s,%d,%s,%d,%d,%s,%s", kind, msgID, xid, bid, bt, res, oc)
+			tok := fmt.Sprintf("%s,%d,%s,%d,%d,%s,%s", kind, uint32(msgIDs[k]), xid, bid, bt, res, oc)
 			end := message.AbstractBranchEndRequest{Xid: xid, BranchId: bid, BranchType: branch.BranchType(bt), ResourceId: res, ApplicationData: []byte("{}")}
 			var body interface{} = message.BranchCommitRequest{AbstractBranchEndRequest: end}
 			if kind == "R" {
@@ -134,10 +142,10 @@ func runC15(c *Ctx) {
 			}
 			want := ""
 			if strings.HasPrefix(oc, "s") {
-				want = fmt.Sprintf("%s,%d,%s,%d,%s", kind, msgID, xid, bid, oc[1:])
+				want = fmt.Sprintf("%s,%d,%s,%d,%s", kind, uint32(msgIDs[k]), xid, bid, oc[1:])
 			}
-			reqs = append(reqs, req{tok: tok, id: msgID, want: want, bt: bt, kind: kind,
-				msg: message.RpcMessage{ID: msgID, Type: message.GettyRequestTypeRequestSync, Codec: byte(codec.CodecTypeSeata), Body: body}})
+			reqs = append(reqs, req{tok: tok, id: msgIDs[k], want: want, bt: bt, kind: kind,
+				msg: message.RpcMessage{ID: msgIDs[k], Type: message.GettyRequestTypeRequestSync, Codec: byte(codec.CodecTypeSeata), Body: body}})
 		}
 		// deliver concurrently on the one session, each delivery on its own goroutine that recovers a
 		// panic exactly like dubbo-getty's task-pool worker does
@@ -162,14 +170,14 @@ func runC15(c *Ctx) {
 		for _, l := range coord.Snapshot() {
 			switch b := l.Msg.Body.(type) {
 			case message.BranchCommitResponse:
-				got = append(got, fmt.Sprintf("%09d C,%d,%s,%d,%d", l.Msg.ID, l.Msg.ID, b.Xid, b.BranchId, int(b.BranchStatus)))
+				got = append(got, fmt.Sprintf("%010d C,%d,%s,%d,%d", uint32(l.Msg.ID), uint32(l.Msg.ID), b.Xid, b.BranchId, int(b.BranchStatus)))
 			case message.BranchRollbackResponse:
-				got = append(got, fmt.Sprintf("%09d R,%d,%s,%d,%d", l.Msg.ID, l.Msg.ID, b.Xid, b.BranchId, int(b.BranchStatus)))
+				got = append(got, fmt.Sprintf("%010d R,%d,%s,%d,%d", uint32(l.Msg.ID), uint32(l.Msg.ID), b.Xid, b.BranchId, int(b.BranchStatus)))
 			}
 		}
 		sort.Strings(got)
 		for k := range got {
-			got[k] = got[k][10:]
+			got[k] = got[k][11:]
 		}
 		obs := "-"
 		if len(got) > 0 {
@@ -183,6 +191,12 @@ func runC15(c *Ctx) {
 				wants = append(wants, q.want)
 			}
 		}
+		sort.Slice(wants, func(a, b int) bool {
+			var x, y uint32
+			fmt.Sscanf(strings.SplitN(wants[a], ",", 3)[1], "%d", &x)
+			fmt.Sscanf(strings.SplitN(wants[b], ",", 3)[1], "%d", &y)
+			return x < y
+		})
 		c.Out.Case(cid, "C15", "stream "+strings.Join(toks, " "), obs)
 		wrong := 0
 		for _, st := range stubs {
